@@ -51,8 +51,6 @@ TInfo ==
          /\ Chk("ScoreRange", IF r.kind = "cp" THEN r.val >= -(MATE0 \div 2) /\ r.val <= MATE0 \div 2
                               ELSE r.kind = "mate" /\ r.val # 0 /\ r.val >= -(MATE0 \div 4) /\ r.val <= MATE0 \div 4, r.line)
          /\ Chk("OneBound", r.bound \in {"", "lowerbound", "upperbound"}, r.line)
-         \* an exact "mate n" is the length of the line shown: the (legal) pv cannot go on after the mate it announces
-         /\ Chk("PvNotLongerThanMateDistance", (r.kind = "mate" /\ r.bound = "") => Len(pv) <= (IF r.val > 0 THEN 2 * r.val - 1 ELSE -2 * r.val), r.line)
          /\ Chk("MultiPvIndex", r.multipv >= 0 /\ r.multipv <= maxpv /\ r.multipv <= Cardinality(RootMoves)
                                 /\ (maxpv = 1 => r.multipv = 0), r.line)
          /\ Chk("MultiPvDistinct", Len(pv) >= 1 => pv[1] \notin fs, r.line)
